@@ -33,7 +33,8 @@ Record config : Type := mk_config {
   cfg_coproc_accepted_pl0_undefined : Z;
   cfg_impdef_reset_vector : Z;
   cfg_impdef_irq_vector : Z;
-  cfg_impdef_fiq_vector : Z
+  cfg_impdef_fiq_vector : Z;
+  cfg_reset_values : list Z    (* per scalar slot of Registers: the configured reset value of its register class (0 if none) *)
 }.
 
 Record device : Type := mk_device { dev_beg : Z; dev_end : Z; dev_bytes : list Z }.
@@ -127,6 +128,15 @@ Definition put_wfi (v : Z) : MM unit := fun s => Ok tt (set_wfi s v).
 Definition get_executed : MM (option opcode) := fun s => Ok (executed s) s.
 Definition put_executed (v : option opcode) : MM unit := fun s => Ok tt (set_executed s v).
 Definition zoom_mem {A} (m : M hub A) : MM A := zoom mem set_mem m.
+
+(* run a computation on the bytes of device number i of the hub *)
+Definition zoom_dev {A} (i : Z) (m : M (list Z) A) : M hub A :=
+  zoom (fun h => dev_bytes (nth (Z.to_nat i) h (mk_device 0 0 [])))
+       (fun h b => let d := nth (Z.to_nat i) h (mk_device 0 0 []) in
+                   upd h (Z.to_nat i) (mk_device (dev_beg d) (dev_end d) b)) m.
+
+(* fuel of translated `while` loops (the LPAE walk needs at most 3 iterations; the coprocessor loops are mocks) *)
+Definition while_fuel : nat := 64%nat.
 
 (* opcode field access: fields are positional *)
 Definition op_field (o : opcode) (i : nat) : Z := nth i (snd o) 0.
